@@ -253,6 +253,35 @@ pub fn hand(b: &mut Builder) {
     b.program("enum_variant_attrs", e.clone());
     b.program("vec_enum_variant_attrs", Desc::Vec(bx(e)));
 
+    // raw-identifier variants under rename_all; a unit variant carrying a rename_all of its own
+    // (which renames its fields, of which it has none, and nothing else); numeric names
+    let variants = vec![
+        VariantDef { ident: "r#Move".into(), rename: None, rename_all: None, fields: None },
+        VariantDef { ident: "r#Type".into(), rename: None, rename_all: None, fields: None },
+        VariantDef { ident: "KeepAlive".into(), rename: None, rename_all: Some(RenameAll::Camel), fields: None },
+        VariantDef { ident: "One".into(), rename: Some("1".into()), rename_all: None, fields: None },
+        VariantDef { ident: "Minus".into(), rename: Some("-3".into()), rename_all: None, fields: None },
+    ];
+    let e = b.add_type("HUnitRawLower", TypeKind::UnitEnum { rename_all: Some(RenameAll::Lower), validate: Validate::No, variants: variants.clone() });
+    b.program("enum_unit_raw_lower", e.clone());
+    b.program("vec_enum_unit_raw_lower", Desc::Vec(bx(e)));
+    let tagged: Vec<VariantDef> = variants
+        .iter()
+        .map(|v| VariantDef { ident: v.ident.clone(), rename: v.rename.clone(), rename_all: v.rename_all, fields: if v.ident == "r#Type" { Some(vec![b.f("inner_value")]) } else { None } })
+        .collect();
+    let e = b.add_type(
+        "HTagRenamed",
+        TypeKind::Tagged { tag: "Shape_Kind".into(), rename_all: Some(RenameAll::Camel), deny: Deny::Default, validate: Validate::No, variants: tagged },
+    );
+    b.program("enum_tag_renamed", e);
+
+    // a tree: recursion through Vec<Self>
+    let idx = b.cat.types.len();
+    let kids = FieldDef::plain("kids", Desc::Vec(bx(Desc::Named(idx))));
+    let fields = vec![b.f("value"), kids];
+    let s = b.strukt("HTree", None, Deny::No, Validate::No, fields);
+    b.program("struct_tree", s);
+
     // variants that answer to the spelling of a number (versioned payloads): the tag is still a string
     let variants = vec![
         VariantDef { ident: "V1".into(), rename: Some("1".into()), rename_all: None, fields: Some(vec![b.f("name")]) },
@@ -445,10 +474,18 @@ pub fn hand(b: &mut Builder) {
     let mut c10 = b.f("conv_try_json_ref");
     c10.conv = Conv::TryFrom { src: Desc::Vec(bx(Desc::Json)), fn_id: b.fid(), by_ref: true };
     c10.default = Dflt::Trait;
+    let mut c11 = b.f("conv_from_default");
+    c11.conv = Conv::From { src: sc(Sc::Str), fn_id: b.fid(), by_ref: false };
+    c11.default = Dflt::Trait;
+    let mut c12 = b.f("conv_from_option");
+    c12.conv = Conv::From { src: Desc::Option(bx(sc(Sc::U8))), fn_id: b.fid(), by_ref: false };
+    let mut c13 = b.f("conv_from_option_ref");
+    c13.conv = Conv::From { src: Desc::Option(bx(sc(Sc::Str))), fn_id: b.fid(), by_ref: true };
+    let marker = FieldDef::plain("marker", Desc::Phantom);
     let mut c8 = b.f("mapped_skipped");
     c8.skip = true;
     c8.map = Some(b.fid());
-    let s = b.strukt("HConv", None, Deny::No, Validate::No, vec![c1, c2, c3, c4, c5, c6, c7, c8, c9, c10]);
+    let s = b.strukt("HConv", None, Deny::No, Validate::No, vec![c1, c2, c3, c4, c5, c6, c7, c8, c9, c10, c11, c12, c13, marker]);
     b.program("struct_conv", s.clone());
     b.program("vec_struct_conv", Desc::Vec(bx(s)));
 
